@@ -1,6 +1,7 @@
 package main
 
 import (
+	"sync"
 	"bufio"
 	"fmt"
 	"io"
@@ -33,6 +34,8 @@ type Solver struct {
 	global  bool
 	fastMs  int
 	Fallbacks int
+	scratch *Solver // second process for sliced (independent) queries
+	Sliced  int
 }
 
 func NewSolver(bin string, timeoutMs int, log io.Writer) *Solver {
@@ -133,6 +136,9 @@ func (s *Solver) PopTo(d int) {
 
 // Reset returns the solver to an empty state (keeps the process).
 func (s *Solver) Reset() {
+	if s.scratch != nil {
+		s.scratch.Reset()
+	}
 	s.PopTo(0)
 	// level 0 may hold definitions from an earlier job: drop them with a reset
 	if len(s.levels[0]) > 0 || len(s.dlevels[0]) > 0 {
@@ -264,6 +270,99 @@ func (s *Solver) CheckWith(extra *Term) string {
 	s.Pop()
 	return r
 }
+
+var varCache sync.Map // term id -> []string (free variable names)
+
+func termVars(t *Term) []string {
+	if v, ok := varCache.Load(t.id); ok {
+		return v.([]string)
+	}
+	m := map[string]*Term{}
+	collectVars(t, map[int32]bool{}, m)
+	ks := sortedVarNames(m)
+	varCache.Store(t.id, ks)
+	return ks
+}
+
+// CheckSliced checks PC ∧ extra when PC is KNOWN to be satisfiable: only the assertions connected to
+// extra through shared variables matter (the rest is satisfiable on its own and shares no variable with
+// them), so they are checked alone in a scratch process. Falls back to CheckWith when the slice is most
+// of the path condition or the scratch answer is not definite.
+func (s *Solver) CheckSliced(extra *Term) string {
+	if extra.IsTrue() {
+		return "sat"
+	}
+	if extra.IsFalse() {
+		return "unsat"
+	}
+	if !s.global || noSlice {
+		return s.CheckWith(extra)
+	}
+	V := map[string]bool{}
+	for _, n := range termVars(extra) {
+		V[n] = true
+	}
+	var all []*Term
+	for _, lvl := range s.asserted {
+		all = append(all, lvl...)
+	}
+	inc := make([]bool, len(all))
+	cnt := 0
+	for changed := true; changed; {
+		changed = false
+		for i, a := range all {
+			if inc[i] {
+				continue
+			}
+			vs := termVars(a)
+			hit := false
+			for _, n := range vs {
+				if V[n] {
+					hit = true
+					break
+				}
+			}
+			if hit {
+				inc[i] = true
+				cnt++
+				changed = true
+				for _, n := range vs {
+					V[n] = true
+				}
+			}
+		}
+	}
+	if cnt*2 > len(all) {
+		return s.CheckWith(extra)
+	}
+	t0 := time.Now()
+	if s.scratch == nil {
+		s.scratch = NewSolver(s.bin, s.timeout, nil)
+	}
+	sc := s.scratch
+	sc.Push()
+	for i, a := range all {
+		if inc[i] {
+			sc.Assert(a)
+		}
+	}
+	sc.Assert(extra)
+	r := sc.Check()
+	sc.Pop()
+	if r != "sat" && r != "unsat" {
+		return s.CheckWith(extra)
+	}
+	s.Sliced++
+	s.Queries++
+	s.Time += time.Since(t0)
+	if len(sc.levels[0]) > 200000 {
+		sc.Reset()
+	}
+	return r
+}
+
+var envNoSlice = os.Getenv("GOSYM_NOSLICE") != ""
+var noSlice = envNoSlice
 
 func parseVal(v string) (uint64, bool) {
 	var x uint64
@@ -475,6 +574,9 @@ func (s *Solver) Model(extra *Term, ts []*Term) ([]uint64, bool) {
 }
 
 func (s *Solver) Close() {
+	if s.scratch != nil {
+		s.scratch.Close()
+	}
 	defer func() { recover() }()
 	s.send("(exit)\n")
 	s.in.Close()
